@@ -140,7 +140,7 @@ def run_runner(case, root, stub):
     return dict(violations=viol, probes=probes, n_solves=n_solves, n_targets=len(targets), pool_runs=len(log), schedules=sorted(sigs), digest=hashlib.sha256("".join(digests).encode()).hexdigest(), variants=len(variants))
 
 
-def _one_part(case, root, tag, cores, recipe_index, pool_seed, log, real_pool=False):
+def _one_part(case, root, tag, cores, recipe_index, pool_seed, log, real_pool=False, worker_fault=None):
     """Compute ONE part through the real parts.evolve/match on a fresh EKO."""
     import eko.evolution_operator as evop
     from eko.io.struct import EKO
@@ -151,7 +151,7 @@ def _one_part(case, root, tag, cores, recipe_index, pool_seed, log, real_pool=Fa
     th, op = cards.build(case["theory"], _with_cores(case["operator"], cores))
     d = Decider(case["seed"], f"fs:{tag}")
     sm = seams.Seams(sub, d, cpu_count=case["cpu"], trace_stats=False, clock=not real_pool)
-    ctx = simpool.PoolPatch(Decider(case["seed"], f"pool:{pool_seed}"), log=log)
+    ctx = simpool.PoolPatch(Decider(case["seed"], f"pool:{pool_seed}"), log=log, fault=worker_fault)
     if real_pool:
         ctx = _Null()
     with ctx:
@@ -228,6 +228,26 @@ def run_integration(case, root, fidelity=False):
             break
         if errsig != base_err:
             probes["error_array_differs"] = probes.get("error_array_differs", 0) + 1
+    # a transient fault inside ONE pool worker (what a real machine does under memory
+    # pressure): the computation must fail loudly or still deliver the sequential result
+    if not fidelity and not viol and runs:
+        d = Decider(case["seed"], "worker-fault")
+        w = d.pick("width", [x for x in case["widths"] if x != 1] or [2])
+        exc = d.pick("exc", ["OSError", "MemoryError", "FloatingPointError", "ValueError"])
+        item = d.below("item", max(1, len(case["operator"]["xgrid"])))
+        try:
+            rec3, opsig3, _ = _one_part(case, root, "wf", w, case["which_part"], "wf", log, worker_fault=dict(item=item, exc=exc))
+            n += 1
+            probes["worker_faults_injected"] = probes.get("worker_faults_injected", 0) + 1
+            if opsig3 != base_op:
+                viol.append(dict(cls="worker-fault-swallowed", key="worker-fault-swallowed", msg=f"part {rec}: a {exc} raised inside pool worker item #{item} (n_integration_cores={w}) was swallowed and the computation returned a result that differs from the sequential one"))
+            else:
+                probes["worker_faults_absorbed_correctly"] = probes.get("worker_faults_absorbed_correctly", 0) + 1
+        except HarnessError:
+            raise
+        except Exception:
+            probes["worker_faults_injected"] = probes.get("worker_faults_injected", 0) + 1
+            probes["worker_faults_raised"] = probes.get("worker_faults_raised", 0) + 1
     state1 = module_state()
     changed = sorted(k for k in set(state0) | set(state1) if state0.get(k) != state1.get(k))
     probes["module_level_containers_watched"] = len(state0)
